@@ -240,6 +240,14 @@ pub fn walk(ase: &AsepriteFile, seed: u64, budget_ops: usize) -> WalkStats {
             Op::Palette => {
                 if let Some(p) = ase.palette() {
                     let _ = p.num_colors();
+                    // the idiom the documentation suggests: indices 0..num_colors(), the count re-read every round
+                    let mut i = 0u32;
+                    while i < p.num_colors() && i < 2_000_000 {
+                        if let Some(e) = p.color(i) {
+                            let _ = e.raw_rgba8();
+                        }
+                        i += 1;
+                    }
                     for i in (0..300u32).chain([65535, u32::MAX]) {
                         if let Some(e) = p.color(i) {
                             let _ = (e.id(), e.raw_rgba8(), e.red(), e.green(), e.blue(), e.alpha(), e.name());
